@@ -195,6 +195,18 @@ def r4(ctx: Ctx) -> None:
             ok = len(sets) == 1 and len(apps) == 1 and len(augs) == 1
     if not ok:
         ctx.report(det.where, "detector-claim", "a cell with ratio ~ 1 is not marked fixed, recorded and counted exactly once", lineno=det.node.lineno)
+    # the modules that can own cells are exactly the fixed modules of the netlist, and every cell is examined
+    cdd = deref(cd, single_defs(cd))
+    netl = ("p", 0)
+    b0 = ("b", 1, 0)
+    want_dom = ("comp", "list", (b0,), ((b0, ("a", netl, "modules"), ("a", b0, "is_fixed")),))
+    mod_loops = [lp for lp in atoms_of(cdd, lambda x: x[0] == "for" and len(x) == 5) if contains(lp[3], a_) or contains(lp[3], "num_rectangles")]
+    ctx.site(det.where, "owner candidates == [m for m in netlist.modules if m.is_fixed], for every cell of the allocation", loops=len(mod_loops))
+    inner = [lp for lp in mod_loops if lp[2] == want_dom]
+    outer = [lp for lp in atoms_of(cdd, lambda x: x[0] == "for" and len(x) == 5) if lp[2] == ("a", ("self",), "allocations") and contains(lp[3], a_)]
+    if len(inner) < 2 or len(inner) != len([lp for lp in mod_loops if lp[2] != ("a", ("self",), "allocations")]) or len(outer) != 1:
+        ctx.report(det.where, "detector-domain", "the detector does not examine every cell against exactly the fixed modules of the netlist "
+                   "(a movable hard module would be given ownership of cells, or a fixed one would get none)", lineno=det.node.lineno)
 
 
 def _small_upper(d: S, a_: S) -> bool:
@@ -236,6 +248,23 @@ def r5(ctx: Ctx) -> None:
     if not ok:
         ctx.report(f.where, "entry-condition " + " | ".join(show(x[1])[:120] for x in ifs), "the ratio is not recorded under 'include_area_zero or ratio > 0' "
                    "keyed by the module name", lineno=f.node.lineno)
+    # zero entries only on request: the option is off by default in both entry points and handed through unchanged
+    fc = ctx.func(ALLOC, "create_initial_allocation")
+    for g_, pname in ((f, f.params()[1]), (fc, fc.params()[1])):
+        a = g_.node.args
+        named = a.posonlyargs + a.args
+        dflt = dict(zip([x.arg for x in named][len(named) - len(a.defaults):], a.defaults))
+        d = dflt.get(pname)
+        okd = isinstance(d, ast.Constant) and d.value is False
+        ctx.site(g_.where, "zero entries are off unless requested (default False)", parameter=pname, default=ast.unparse(d) if d is not None else None)
+        if not okd:
+            ctx.report(g_.where, f"zero-entries-default {g_.qualname}", f"{g_.qualname}: zero entries are listed although they were not requested "
+                       "(the include-zero option does not default to False)", lineno=g_.node.lineno)
+    cc = canon_function(fc, ctx.model)
+    calls = atoms_of(cc, lambda x: x[0] == "c" and x[1][0] == "a" and x[1][2] == "initial_allocation")
+    ctx.site(fc.where, "create_initial_allocation hands its include-zero option to initial_allocation")
+    if not (len(calls) == 1 and (len(calls[0][2]) >= 2 and calls[0][2][1] == ("p", 1) or dict(calls[0][3]).get(f.params()[1]) == ("p", 1))):
+        ctx.report(fc.where, "zero-entries-passed", "create_initial_allocation does not pass its include-zero option on", lineno=fc.node.lineno)
 
 
 @rule("C03", "R6.default-square", "LAW",
